@@ -7,6 +7,12 @@
 (d) the zero-length clause yields for a bound end without consulting the graph
 (e) every end parameter of an evaluator is forwarded (used) - a dropped end
     makes the result unrestricted
+(l) a helper that walks in a fixed direction is handed the rest of a walk with a
+    known node on the end it starts from (never an all-unbound first step)
+(m) a result a path production can leave unset is tested for absence by the arm
+    of translatePath that consumes it
+(n) no element inside a path production refuses preceding white space, unless an
+    alternative arm takes it after white space behind the necessary lookaheads
 """
 from __future__ import annotations
 
@@ -608,3 +614,465 @@ def run(repo: Repo, rep: Report) -> None:  # noqa: F811
         rep.ob("C11.j-negated-set-inverse-members-reversed", paths, "NegatedPath.eval", "reversed edges enumerated: graph.triples((%s, None, %s))" % (obj, subj), rev,
                "" if rev else "inverse members are accepted by __init__ but eval never enumerates edges in the reverse direction: !(^q) yields forward edges (filtered by an unrelated "
                "existence test) instead of the pairs (x, y) with y --not q--> x", node=ev)
+
+
+# ---------------------------------------------------------------------------
+# layer 3 (F170-F173): direction of a continued walk, optional grammar parts, white space inside path productions
+
+
+def _none_facts(test: ast.AST) -> tuple[dict, dict]:
+    """(facts if the test is true, facts if it is false); a fact is name -> True (is not None) / False (is None)"""
+    if isinstance(test, ast.Compare) and len(test.ops) == 1 and isinstance(test.left, ast.Name) \
+            and isinstance(test.comparators[0], ast.Constant) and test.comparators[0].value is None:
+        if isinstance(test.ops[0], ast.IsNot):
+            return {test.left.id: True}, {test.left.id: False}
+        if isinstance(test.ops[0], ast.Is):
+            return {test.left.id: False}, {test.left.id: True}
+    if isinstance(test, ast.UnaryOp) and isinstance(test.op, ast.Not):
+        t, f = _none_facts(test.operand)
+        return f, t
+    if isinstance(test, ast.BoolOp):
+        parts = [_none_facts(v) for v in test.values]
+        merged: dict = {}
+        for t, f in parts:
+            merged.update(t if isinstance(test.op, ast.And) else f)
+        return (merged, {}) if isinstance(test.op, ast.And) else ({}, merged)
+    return {}, {}
+
+
+def _known_ends(mod, node: ast.AST, stop: ast.AST) -> dict:
+    """what the `if X is [not] None` statements enclosing node (inside stop) say about names at node"""
+    facts: dict = {}
+    child = node
+    for p in mod.parents(node):
+        if isinstance(p, ast.If):
+            t, f = _none_facts(p.test)
+            got = t if any(child is s for s in p.body) else f if any(child is s for s in p.orelse) else {}
+            for k, v in got.items():
+                facts.setdefault(k, v)
+        if p is stop:
+            break
+        child = p
+    return facts
+
+
+def _step_pattern(c: ast.AST):
+    """the (start, step, end) pattern of a step evaluation eval_path(graph, (a, p, b)), else None"""
+    if isinstance(c, ast.Call) and norm(c.func) == "eval_path" and len(c.args) == 2 and isinstance(c.args[1], ast.Tuple) and len(c.args[1].elts) == 3:
+        return c.args[1].elts
+    return None
+
+
+def _is_none(e: ast.AST) -> bool:
+    return isinstance(e, ast.Constant) and e.value is None
+
+
+def _walk_anchor(h: ast.FunctionDef):
+    """(index of the parameter the helper starts its walk from, side of the step pattern it sits on: 0 start / 2 end), read off the
+    helper's own step evaluations that leave exactly the other end open; None if the helper has no fixed direction"""
+    params = [a.arg for a in h.args.args]
+    found = set()
+    for c in own_nodes(h):
+        pat = _step_pattern(c)
+        if pat is None:
+            continue
+        a, _, b = pat
+        if _is_none(b) and isinstance(a, ast.Name) and a.id in params:
+            found.add((params.index(a.id), 0))
+        if _is_none(a) and isinstance(b, ast.Name) and b.id in params:
+            found.add((params.index(b.id), 2))
+    return next(iter(found)) if len(found) == 1 else None
+
+
+def _arg_at(call: ast.Call, callee: ast.FunctionDef, idx: int):
+    if idx < len(call.args):
+        return call.args[idx]
+    name = callee.args.args[idx].arg
+    return next((k.value for k in call.keywords if k.arg == name), None)
+
+
+def _reached(mod, node: ast.AST, h: ast.AST) -> dict:
+    """names bound by the for-loops of h that enclose node -> (loop, position in the loop target)"""
+    out: dict = {}
+    for p in mod.parents(node):
+        if p is h:
+            break
+        if isinstance(p, ast.For):
+            elts = p.target.elts if isinstance(p.target, ast.Tuple) else [p.target]
+            for i, e in enumerate(elts):
+                if isinstance(e, ast.Name):
+                    out.setdefault(e.id, (p, i if isinstance(p.target, ast.Tuple) else None))
+    return out
+
+
+# --- a tiny reader of the pyparsing grammar module (expressions are never evaluated)
+_LW = ("leave_whitespace", "leaveWhitespace")
+_TRANSPARENT_METHODS = ("copy", "set_parse_action", "setParseAction", "add_parse_action", "addParseAction", "set_name", "setName", "suppress",
+                        "set_results_name", "setResultsName", "set_debug", "streamline")
+
+
+def _grammar_env(pm) -> dict:
+    """module-level grammar definitions: name -> expression; a Forward() name resolves to what `<<=` gives it"""
+    env: dict = {}
+    for st in pm.tree.body:
+        if isinstance(st, ast.Assign) and len(st.targets) == 1 and isinstance(st.targets[0], ast.Name):
+            env[st.targets[0].id] = st.value
+        elif isinstance(st, ast.AugAssign) and isinstance(st.op, ast.LShift) and isinstance(st.target, ast.Name):
+            env[st.target.id] = st.value
+    return env
+
+
+def _flat(e: ast.AST, op) -> list:
+    if isinstance(e, ast.BinOp) and isinstance(e.op, op):
+        return _flat(e.left, op) + _flat(e.right, op)
+    return [e]
+
+
+def _cname(c: ast.Call) -> str:
+    return c.func.id if isinstance(c.func, ast.Name) else c.func.attr if isinstance(c.func, ast.Attribute) else ""
+
+
+def _is_param(c: ast.AST) -> bool:
+    return isinstance(c, ast.Call) and isinstance(c.func, ast.Name) and c.func.id in ("Param", "ParamList") and bool(c.args) \
+        and isinstance(c.args[0], ast.Constant) and isinstance(c.args[0].value, str)
+
+
+def _is_comp(c: ast.AST) -> bool:
+    return isinstance(c, ast.Call) and isinstance(c.func, ast.Name) and c.func.id == "Comp"
+
+
+def _param_names(e: ast.AST, env: dict, seen: frozenset = frozenset()) -> set:
+    """names of the Param/ParamList results the expression can set on the enclosing Comp (nested Comp nodes keep their own)"""
+    if _is_param(e):
+        return {e.args[0].value}
+    if _is_comp(e):
+        return set()
+    if isinstance(e, ast.Name):
+        if e.id in env and e.id not in seen:
+            return _param_names(env[e.id], env, seen | {e.id})
+        return set()
+    out = set()
+    for ch in ast.iter_child_nodes(e):
+        out |= _param_names(ch, env, seen)
+    return out
+
+
+def _may_be_absent(e: ast.AST, name: str, env: dict, seen: frozenset = frozenset()) -> bool:
+    """can the expression match without setting result `name`?"""
+    if _is_param(e):
+        return e.args[0].value != name
+    if _is_comp(e) or isinstance(e, (ast.Constant, ast.UnaryOp)):
+        return True
+    if isinstance(e, ast.BinOp) and isinstance(e.op, ast.Add):
+        return all(_may_be_absent(x, name, env, seen) for x in _flat(e, ast.Add))
+    if isinstance(e, ast.BinOp) and isinstance(e.op, (ast.BitOr, ast.BitXor)):
+        return any(_may_be_absent(x, name, env, seen) for x in _flat(e, type(e.op)))
+    if isinstance(e, ast.Name):
+        if e.id in env and e.id not in seen:
+            return _may_be_absent(env[e.id], name, env, seen | {e.id})
+        return True
+    if isinstance(e, ast.Call):
+        if isinstance(e.func, ast.Name) and e.func.id in ("Optional", "Opt", "ZeroOrMore"):
+            return True
+        if isinstance(e.func, ast.Attribute):  # X.copy(), X.leave_whitespace(), ...
+            return _may_be_absent(e.func.value, name, env, seen)
+        return all(_may_be_absent(a, name, env, seen) for a in e.args)
+    return True
+
+
+def _ws_sensitive(e: ast.AST, env: dict, mutated: dict, seen: frozenset = frozenset()):
+    """the .leave_whitespace() call that makes the START of this element refuse preceding white space, or None.  An alternation
+    `X.leave_whitespace() | <lookaheads> + X` is not sensitive: its second arm takes X after white space."""
+    if isinstance(e, ast.Call):
+        if isinstance(e.func, ast.Attribute):
+            if e.func.attr in _LW:
+                return e
+            if e.func.attr in _TRANSPARENT_METHODS:
+                return _ws_sensitive(e.func.value, env, mutated, seen)
+            return None
+        for a in e.args:
+            r = _ws_sensitive(a, env, mutated, seen)
+            if r is not None:
+                return r
+        return None
+    if isinstance(e, ast.BinOp) and isinstance(e.op, ast.Add):
+        return _ws_sensitive(_flat(e, ast.Add)[0], env, mutated, seen)
+    if isinstance(e, ast.BinOp) and isinstance(e.op, (ast.BitOr, ast.BitXor)):
+        alts = _flat(e, type(e.op))
+        for a in alts:
+            r = _ws_sensitive(a, env, mutated, seen)
+            if r is None:
+                continue
+            if r is a and any(_ws_cover(b, r, env, mutated, seen) is not None for b in alts if b is not a):
+                continue
+            return r
+        return None
+    if isinstance(e, ast.Name):
+        if e.id in mutated:
+            return mutated[e.id]
+        if e.id.startswith("Path") and e.id in env and e.id not in seen:
+            return _ws_sensitive(env[e.id], env, mutated, seen | {e.id})
+    return None
+
+
+def _lw_base(call: ast.Call) -> ast.AST:
+    b = call.func.value
+    while isinstance(b, ast.Call) and isinstance(b.func, ast.Attribute) and b.func.attr == "copy" and not b.args:
+        b = b.func.value
+    return b
+
+
+def _ws_cover(b: ast.AST, lw: ast.Call, env: dict, mutated: dict, seen: frozenset):
+    """if alternative b matches the element of `lw` with white space skipped (only lookaheads before it), the lookaheads; else None"""
+    chain = _flat(b, ast.Add)
+    if norm(chain[-1]) != norm(_lw_base(lw)) or _ws_sensitive(chain[-1], env, mutated, seen) is not None:
+        return None
+    if not all(isinstance(x, ast.UnaryOp) and isinstance(x.op, ast.Invert) for x in chain[:-1]):
+        return None
+    return [x.operand for x in chain[:-1]]
+
+
+def _lead(e: ast.AST, env: dict, seen: frozenset = frozenset()) -> set:
+    """first characters of the literal strings an element can start with (regular-expression tokens contribute nothing)"""
+    if isinstance(e, ast.Constant):
+        return {e.value[0]} if isinstance(e.value, str) and e.value else set()
+    if isinstance(e, ast.BinOp) and isinstance(e.op, ast.Add):
+        out = set()
+        for x in _flat(e, ast.Add):
+            out |= _lead(x, env, seen)
+            nullable = (isinstance(x, ast.Call) and isinstance(x.func, ast.Name) and x.func.id in ("Optional", "Opt", "ZeroOrMore")) or isinstance(x, ast.UnaryOp)
+            if not nullable:
+                break
+        return out
+    if isinstance(e, ast.BinOp) and isinstance(e.op, (ast.BitOr, ast.BitXor)):
+        return set().union(*[_lead(x, env, seen) for x in _flat(e, type(e.op))])
+    if isinstance(e, ast.UnaryOp):
+        return set()
+    if isinstance(e, ast.Name):
+        if e.id in env and e.id not in seen:
+            return _lead(env[e.id], env, seen | {e.id})
+        return set()
+    if isinstance(e, ast.Call):
+        if isinstance(e.func, ast.Attribute):
+            return _lead(e.func.value, env, seen)
+        if isinstance(e.func, ast.Name) and e.func.id == "Regex":
+            return set()
+        args = e.args[1:] if (_is_param(e) or _is_comp(e)) else e.args[:1]
+        return set().union(*[_lead(a, env, seen) for a in args]) if args else set()
+    return set()
+
+
+_run_base2 = run
+
+
+def run(repo: Repo, rep: Report) -> None:  # noqa: F811
+    _run_base2(repo, rep)
+    paths = repo.mod("rdflib.paths")
+    typed = repo.typed
+
+    # ------------------------------------------------------------------ (l)
+    # A helper of a path evaluator that walks in a fixed direction evaluates its own step from one of its end parameters and leaves
+    # the other end of that step open.  Whoever hands it the rest of a walk must put a node it KNOWS on that parameter.
+    rep.rule(
+        "C11.l-walk-continues-from-known-node",
+        "in the eval methods of the Path classes, a nested helper whose own step starts from one of its end parameters (eval_path(graph, (P, step, None)) "
+        "or (None, step, P)) receives on that parameter the node just reached by the caller's loop - the far end of the caller's step - or an end "
+        "the enclosing `is not None` tests prove bound; a step pushed for a reached node keeps the helper's direction.  Otherwise the callee's first "
+        "step runs with BOTH ends unbound and a zero-length match on a term that is not in the graph is lost: "
+        "Graph().subjects(p*/q*/r*, X) must yield X",
+        floor=10,
+    )
+    rid = "C11.l-walk-continues-from-known-node"
+    path_classes = [c for c in typed.subclasses("rdflib.paths.Path") if c.startswith("rdflib.paths.")]
+    for c in path_classes:
+        cname = c.rsplit(".", 1)[1]
+        if cname == "Path" or not paths.has(cname + ".eval"):
+            continue
+        ev = paths.func(cname + ".eval")
+        helpers = _nested_funcs(ev)
+        if not helpers:
+            continue
+        anchors = {n: _walk_anchor(h) for n, h in helpers.items()}
+        ends = [a.arg for a in ev.args.args[2:4]]
+        # (1) calls between helpers that continue a walk, (2) steps pushed for a reached node
+        for hn, h in helpers.items():
+            for n in own_nodes(h):
+                if not isinstance(n, ast.Call):
+                    continue
+                reached = _reached(paths, n, h)
+                if not reached:
+                    continue
+                if isinstance(n.func, ast.Name) and n.func.id in helpers and anchors[n.func.id] is not None:
+                    k = helpers[n.func.id]
+                    idx, _side = anchors[n.func.id]
+                    arg = _arg_at(n, k, idx)
+                    pname = k.args.args[idx].arg
+                    facts = _known_ends(paths, n, h)
+                    ok = isinstance(arg, ast.Name) and (arg.id in reached or facts.get(arg.id) is True)
+                    why = "%s starts from its parameter %s, which receives %s" % (k.name, pname, norm(arg) if arg is not None else "nothing")
+                    if ok and arg.id in reached and anchors[hn] is not None:
+                        loop, pos = reached[arg.id]
+                        if _step_pattern(loop.iter) is not None and pos is not None:
+                            far = 1 if anchors[hn][1] == 0 else 0
+                            ok = pos == far
+                            if not ok:
+                                why = "%s walks from its %s end, but the continuation starts from the NEAR end of the step just evaluated (%s), not from the node reached" % (
+                                    hn, "start" if far == 1 else "end", arg.id)
+                    elif not ok:
+                        others = [norm(a) for a in n.args if isinstance(a, ast.Name) and a.id in reached]
+                        why = ("%s starts its walk from its parameter %s, but the node just reached (%s) is passed as the other end and %s receives %s, which may be unbound: "
+                               "the first step of the remaining walk is evaluated with both ends open and zero-length matches on terms absent from the graph are lost" % (
+                                   k.name, pname, ", ".join(others) or "-", pname, norm(arg) if arg is not None else "nothing"))
+                    rep.ob(rid, paths, "%s.eval.%s" % (cname, hn), n, ok, why, node=n)
+                pat = _step_pattern(n)
+                if pat is not None and anchors[hn] is not None and any(isinstance(x, ast.Name) and x.id in reached for x in (pat[0], pat[2])):
+                    side = anchors[hn][1]
+                    ok = isinstance(pat[side], ast.Name) and pat[side].id in reached
+                    rep.ob(rid, paths, "%s.eval.%s" % (cname, hn), n, ok,
+                           "the step pushed for a reached node starts from it in the helper's own direction" if ok else
+                           "%s walks %s, but the step evaluated for the node just reached puts it on the other end: the walk turns round" % (hn, "forwards" if side == 0 else "backwards"), node=n)
+        # (3) the driver picks a helper that starts from an end it knows to be bound
+        for n in own_nodes(ev):
+            if not (isinstance(n, ast.Call) and isinstance(n.func, ast.Name) and n.func.id in helpers and anchors[n.func.id] is not None):
+                continue
+            k = helpers[n.func.id]
+            idx, _side = anchors[n.func.id]
+            arg = _arg_at(n, k, idx)
+            if not (isinstance(arg, ast.Name) and arg.id in ends):
+                continue
+            facts = _known_ends(paths, n, ev)
+            better = [a.id for a in list(n.args) + [kw.value for kw in n.keywords] if isinstance(a, ast.Name) and a.id in ends and a.id != arg.id and facts.get(a.id) is True]
+            ok = facts.get(arg.id) is True or not better
+            rep.ob(rid, paths, "%s.eval" % cname, n, ok,
+                   ("%s starts from %s, known bound here" % (k.name, arg.id) if facts.get(arg.id) is True else "no end is known to be bound on this branch") if ok else
+                   "on the branch where %s is bound and %s is not known to be, the walk is handed to %s, which starts from %s: its first step is evaluated with both ends unbound" % (
+                       better[0], arg.id, k.name, arg.id), node=n)
+
+    # ------------------------------------------------------------------ (m)
+    pm = repo.mod("rdflib.plugins.sparql.parser")
+    am = repo.mod("rdflib.plugins.sparql.algebra")
+    env = _grammar_env(pm)
+    rep.rule(
+        "C11.m-optional-path-part-tested-for-absence",
+        "a result (Param/ParamList) that a path production of parser.py can leave unset - it sits under Optional/ZeroOrMore or in one arm of an alternation only - "
+        "reads as None on the parse node; the arm of algebra.translatePath for that production consults it and every use is either the absence test itself "
+        "(`is None`, `is not None`, truthiness) or lies under one.  Otherwise None is wrapped into the path object: `?s !() ?o` raises 'Can only negate ... not: None'",
+        floor=2,
+    )
+    tps = [f for q, f in am.functions() if q == "translatePath"]
+    if not tps:
+        raise AnalysisError("translatePath vanished")
+    tp = tps[0]
+    pvar = tp.args.args[0].arg
+    arms: dict = {}
+    for n in ast.walk(tp):
+        if isinstance(n, ast.If) and isinstance(n.test, ast.Compare) and len(n.test.ops) == 1 and isinstance(n.test.ops[0], ast.Eq) \
+                and norm(n.test.left) == pvar + ".name" and isinstance(n.test.comparators[0], ast.Constant):
+            arms[n.test.comparators[0].value] = n
+
+    def is_absence_test(u: ast.AST) -> bool:
+        p = am.parent.get(id(u))
+        if isinstance(p, ast.Compare) and p.left is u and len(p.ops) == 1 and isinstance(p.ops[0], (ast.Is, ast.IsNot)) and _is_none(p.comparators[0]):
+            return True
+        if isinstance(p, ast.UnaryOp) and isinstance(p.op, ast.Not):
+            return True
+        if isinstance(p, (ast.If, ast.IfExp, ast.While)) and p.test is u:
+            return True
+        return isinstance(p, ast.BoolOp)
+
+    def tests_absence(test: ast.AST, attr: str) -> bool:
+        return any(isinstance(x, ast.Attribute) and x.attr == attr and norm(x.value) == pvar and is_absence_test(x) for x in ast.walk(test))
+
+    def guarded(u: ast.AST, attr: str, arm: ast.If) -> bool:
+        child = u
+        for p in am.parents(u):
+            if isinstance(p, (ast.If, ast.IfExp)) and p is not arm and child is not p.test and tests_absence(p.test, attr):
+                return True
+            if isinstance(p, ast.BoolOp) and any(tests_absence(v, attr) for v in p.values[: next(i for i, v in enumerate(p.values) if v is child)]):
+                return True
+            for field in ("body", "orelse", "finalbody"):
+                blk = getattr(p, field, None)
+                if isinstance(blk, list) and any(child is s for s in blk):
+                    i = next(i for i, s in enumerate(blk) if s is child)
+                    if any(isinstance(s, ast.If) and tests_absence(s.test, attr) and s.body and isinstance(s.body[-1], (ast.Return, ast.Raise)) for s in blk[:i]):
+                        return True
+            if p is arm:
+                break
+            child = p
+        return False
+
+    for c in ast.walk(pm.tree):
+        if not (_is_comp(c) and len(c.args) >= 2 and isinstance(c.args[0], ast.Constant) and isinstance(c.args[0].value, str) and "Path" in c.args[0].value):
+            continue
+        kname = c.args[0].value
+        if kname not in arms:
+            continue  # (i) reports productions without an arm
+        for pn in sorted(_param_names(c.args[1], env)):
+            if not _may_be_absent(c.args[1], pn, env):
+                continue
+            arm = arms[kname]
+            uses = [x for s in arm.body for x in ast.walk(s) if isinstance(x, ast.Attribute) and x.attr == pn and norm(x.value) == pvar and isinstance(x.ctx, ast.Load)]
+            bad = [u for u in uses if not is_absence_test(u) and not guarded(u, pn, arm)]
+            ok = bool(uses) and not bad
+            rep.ob("C11.m-optional-path-part-tested-for-absence", am, "translatePath", "%s: optional result %r" % (kname, pn), ok,
+                   "every use of %s.%s lies under a test for its absence" % (pvar, pn) if ok else
+                   ("the %s production can leave %r unset, but the arm for it never consults %s.%s: the optional part is ignored" % (kname, pn, pvar, pn) if not uses else
+                    "the %s production can leave %r unset (the parse node then reads None), but %s is used without a test for absence: None ends up as a member of the path "
+                    "(for the empty negated set !() : 'Can only negate URIRefs, InvPaths or AlternativePaths, not: None')" % (kname, pn, norm(am.parent.get(id(bad[0]), bad[0]))[:80])),
+                   node=bad[0] if bad else arm)
+
+    # ------------------------------------------------------------------ (n)
+    rep.rule(
+        "C11.n-path-grammar-skips-white-space",
+        "SPARQL tokens may be separated by white space, also inside a path: no element that FOLLOWS another one in a path production of parser.py (Path*) is made "
+        "white-space sensitive by .leave_whitespace(), unless it is one arm of an alternation whose other arm takes the same element after white space "
+        "(`X.copy().leave_whitespace() | ~T1 + ~T2 + X`, X itself not modified in place); the lookaheads of that arm exclude every token of the following "
+        "object list that begins with a character the element begins with.  Otherwise `?s <p> * ?o`, `(<p>) + <q>` and `<p> ? <b>` are syntax errors / "
+        "`?s <p> ?o` and `<p> +1` no longer parse",
+        floor=17,
+    )
+    rid = "C11.n-path-grammar-skips-white-space"
+    prods = {k: v for k, v in env.items() if k.startswith("Path")}
+    if len(prods) < 8:
+        raise AnalysisError("expected >= 8 path productions (Path*) in parser.py, found %s" % sorted(prods))
+    mutated = {}
+    for x in ast.walk(pm.tree):
+        if isinstance(x, ast.Call) and isinstance(x.func, ast.Attribute) and x.func.attr in _LW and isinstance(x.func.value, ast.Name):
+            mutated.setdefault(x.func.value.id, x)
+    if "ObjectListPath" not in env:
+        raise AnalysisError("parser.py: ObjectListPath (what follows a path in a triple pattern) not found")
+    follow = _lead(env["ObjectListPath"], env)
+    if "?" not in follow:
+        raise AnalysisError("parser.py: cannot see that an object may start with '?' (leading literals of ObjectListPath: %s)" % sorted(follow))
+    for pname_, expr in sorted(prods.items()):
+        for n in ast.walk(expr):
+            if isinstance(n, ast.BinOp) and isinstance(n.op, ast.Add):
+                par = pm.parent.get(id(n))
+                if isinstance(par, ast.BinOp) and isinstance(par.op, ast.Add) and par.left is n:
+                    continue
+                for x in _flat(n, ast.Add)[1:]:
+                    off = _ws_sensitive(x, env, mutated)
+                    rep.ob(rid, pm, "<path grammar> " + pname_, x, off is None,
+                           "white space before this element is skipped" if off is None else
+                           "%s must follow the preceding element immediately: white space, which SPARQL allows between any two tokens, makes the path a syntax error "
+                           "(`?s <p> * ?o`)%s" % (norm(off), " - %s is modified in place, every use of it is affected" % norm(off.func.value) if isinstance(off.func.value, ast.Name) else ""),
+                           node=x)
+            if isinstance(n, ast.BinOp) and isinstance(n.op, (ast.BitOr, ast.BitXor)):
+                par = pm.parent.get(id(n))
+                if isinstance(par, ast.BinOp) and isinstance(par.op, type(n.op)) and par.left is n:
+                    continue
+                alts = _flat(n, type(n.op))
+                for a in alts:
+                    if not (isinstance(a, ast.Call) and isinstance(a.func, ast.Attribute) and a.func.attr in _LW):
+                        continue
+                    for b in alts:
+                        looks = _ws_cover(b, a, env, mutated, frozenset()) if b is not a else None
+                        if looks is None:
+                            continue
+                        clash = _lead(_lw_base(a), env) & follow
+                        excluded = set().union(*[_lead(l, env) for l in looks]) if looks else set()
+                        missing = sorted(clash - excluded)
+                        rep.ob(rid, pm, "<path grammar> " + pname_, b, not missing,
+                               "lookaheads exclude the following tokens that start with %s" % sorted(clash) if not missing else
+                               "after white space %s also matches the first character of the NEXT term (%s starts both this element and a token of the object list) and no "
+                               "lookahead excludes that token: the start of the object is swallowed as a path modifier (`?s <p> ?o`, `?s <p> +1`)" % (norm(_lw_base(a)), missing), node=b)
